@@ -22,9 +22,11 @@ class CsrEvMonWorld(World):
     fault_kinds = ("abort", "gap", "event_in_clearing_cycle", "events_between_chunks",
                    "write_zero_mask", "read_while_events_arrive", "event_map_queried_before_complete",
                    "second_instance_in_process",
-                   "decoder_windows_at_explicit_addresses_in_any_order")
+                   "decoder_windows_at_explicit_addresses_in_any_order", "domain_reset")
     assumptions = (
         "Amaranth's Python RTL simulator executes the elaborated netlist faithfully",
+        "a reset of the clock domain returns the component to its initial state (the state the "
+        "property calls initial is the state after reset, as for every Amaranth register)",
         "only transaction-shaped CSR accesses are generated (complete or aborted, with gaps), "
         "because the data a register receives from a non-conforming write is unspecified",
         "the register file half of the model relies on C04/C05 (multiplexer) semantics",
@@ -34,7 +36,7 @@ class CsrEvMonWorld(World):
         return {"quick": 3000, "thorough": 40000}[tier]
 
     def gen_config(self, rng, prop):
-        dw = rng.choice([4, 8, 16, 32])
+        dw = rng.choice([4, 8, 16, 32]) if not rng.chance(0.06) else rng.choice([1, 2, 3])
         n = rng.range(0, 3 * dw if (dw <= 8 or rng.chance(0.15)) else 20)
         if rng.chance(0.15):
             n = rng.range(4 * dw + 1, 7 * dw)        # five to seven mask words
@@ -48,15 +50,17 @@ class CsrEvMonWorld(World):
                 # occupy (None: implicit placement) and which of the two is added first
                 "dec_slots": rng.choice([None, None] + [[a, b] for a in range(4) for b in range(4)
                                                         if a != b]),
-                "dec_mon_first": int(rng.chance(0.5))}
+                "dec_mon_first": int(rng.chance(0.5)), "omit": int(rng.chance(0.3))}
 
     def gen_ops(self, rng, config, prop):
         dw = config["dw"]
         ops = []
+        p_rst = rng.choice([0, 0, 0.2])
         for _ in range(rng.range(15, 50)):
             k = rng.below(100)
             if k < 15:
-                ops.append({"k": "idle", "n": rng.range(1, 3)})
+                ops.append({"k": "idle", "n": rng.range(1, 3)} if not rng.chance(p_rst)
+                           else {"k": "reset"})
             elif k < 23:
                 ops.append({"k": "weave", "reg": rng.below(2), "rn": rng.below(12),
                             "wn": rng.below(12), "ord": [rng.below(3) for _ in range(8)],
@@ -78,7 +82,9 @@ class CsrEvMonWorld(World):
         dw = config["dw"]
         n = len(config["srcs"])
         em = event.EventMap()
-        srcs = [event.Source(trigger=tr, path=(f"s{i}",)) for i, tr in enumerate(config["srcs"])]
+        omit = config.get("omit")
+        srcs = [event.Source(path=(f"s{i}",), **hw.spelled(omit, {"trigger": "level"}, trigger=tr))
+                for i, tr in enumerate(config["srcs"])]
         for i_, s in enumerate(srcs):
             em.add(s)
             if config.get("peek_sources") and i_ == len(srcs) // 2:
@@ -86,15 +92,17 @@ class CsrEvMonWorld(World):
                 em.size
                 stats.fault("event_map_queried_before_complete")
         dut = hw.must_accept("C14", f"csr.EventMonitor({n} events, data_width={dw}, alignment="
-                             f"{config['al']})", csr.EventMonitor, em, trigger=config["trigger"],
-                             data_width=dw, alignment=config["al"])
+                             f"{config['al']})", csr.EventMonitor, em,
+                             **hw.spelled(omit, {"trigger": "level", "alignment": 0},
+                                          trigger=config["trigger"], data_width=dw,
+                                          alignment=config["al"]))
         if config.get("decoy"):
             em2 = event.EventMap()
             for i_ in range((n % 3) + 1):
                 em2.add(event.Source(trigger=TRIGGERS[i_ % 3], path=(f"d{i_}",)))
             csr.EventMonitor(em2, trigger=config["trigger"], data_width=dw, alignment=config["al"])
             stats.fault("second_instance_in_process")
-        top = hw.make_top(dut)
+        top, rst = hw.make_top_with_reset(dut)
         attach = config["attach"]
         base = 0
         if attach == "direct":
@@ -163,6 +171,7 @@ class CsrEvMonWorld(World):
                 p.set(bus.r_stb, rs)
                 p.set(bus.w_stb, ws)
                 p.set(bus.w_data, wd)
+                p.set(rst, int(tag == "reset"))
                 lv = 0
                 for i in range(n):
                     bit = int(cval(hwseed, i, t, 7) % 100 < p_lv)
@@ -221,6 +230,14 @@ class CsrEvMonWorld(World):
                     enable = new_enable
                     stats.work += 1
                 prev, prev_addr, prev_rs = e, addr, rs
+                if tag == "reset":
+                    # fault: the domain is reset in this (idle) cycle, possibly between the chunks
+                    # of a transaction: nothing enabled, nothing pending, previous inputs low
+                    enable = 0
+                    mon.pending = 0
+                    mon.prev = [0] * n
+                    rf._break()
+                    stats.fault("domain_reset")
                 await ctx.tick()
             stats.cycles += len(cycles)
 
